@@ -31,7 +31,7 @@ def lastCover {α} (segs : List (Seg α)) (prior : α) (k : Nat) : α :=
 def importedGlobal (w : World) (r : Resolver) (k : Nat) : Option Nat := (r.global k).bind (w.globals[·]?)
 
 /-- constant expressions may only refer to imported globals -/
-def evalConst (d : ModDesc) (w : World) (r : Resolver) : CExpr → Option Nat
+def evalConst (d : ModDesc) (w : World) (r : Resolver) : ConstE → Option Nat
   | .const b => some b
   | .globalGet k => if k < d.globalImports then importedGlobal w r k else none
 
